@@ -32,7 +32,7 @@ FINAL = {
           "HeterodyneMeasurement", "GeneraldyneMeasurement"],
     "F": ["ParticleNumberMeasurement"],
 }
-SHOTS_NONE_OK = {"PF": ["ParticleNumberMeasurement", "ImperfectParticleNumberMeasurement"],
+SHOTS_NONE_OK = {"PF": ["ParticleNumberMeasurement"],
                  "P": ["ParticleNumberMeasurement", "ImperfectParticleNumberMeasurement"],
                  "F": ["ParticleNumberMeasurement"], "G": []}
 GATES = {
